@@ -113,15 +113,13 @@ impl Require {
     /// This will return error for any normal TOML serialization error as well if it's not
     /// possible to serialize as a TOML Table.
     pub fn metadata<T: Serialize>(&mut self, metadata: T) -> Result<(), toml::ser::Error> {
-        if let toml::Value::Table(table) = toml::Value::try_from(metadata)? {
-            self.metadata = table;
+        // `toml::Value::try_from` does not preserve datetime values: they end up as tables with
+        // a private marker key. Serializing to a TOML document (which also fails for anything
+        // that isn't a table) and reading it back as a table preserves every kind of TOML value.
+        self.metadata = toml::to_string(&metadata)
+            .and_then(|document| toml::from_str(&document).map_err(toml::ser::Error::custom))?;
 
-            Ok(())
-        } else {
-            Err(toml::ser::Error::custom(String::from(
-                "Couldn't be serialized as a TOML Table.",
-            )))
-        }
+        Ok(())
     }
 }
 
